@@ -391,7 +391,7 @@ def run(tier):
         "per-block work > 1 is realised by a compact target of w times the epoch difficulty; such scenarios are delivered with Switch::DISABLE_EPOCH (all other rules verified)",
         "contextual flaws: DAO field off by one, commitment outside the proposal window; non-contextual flaw: duplicate proposal id",
         "the node under test and the mirror node are truncated back to genesis between exported scenarios (every scenario uses fresh blocks)",
-        "the orphan retention horizon (clean_expired_orphans) is exercised only by the growth part (ChainCoreX.tla, g_expiry; thorough tier)",
+        "the orphan retention horizon (clean_expired_orphans) is exercised by the growth part (ChainCoreX.tla, g_expiry): a sample of 24 expiry scenarios in the quick tier, 140 in the thorough tier",
     ]
     rnd = random.Random(V.seed())
     pool = cf.ThreadPoolExecutor(max_workers=3)
